@@ -60,3 +60,7 @@ func VV(m MaybeFloat) Float {
 //@ func (DimOrS).IsNone
 //@   props C10
 //@   inline
+
+//@ func (Dimension).ToValue
+//@   props C17
+//@   inline
